@@ -314,6 +314,33 @@ Proof.
     + destruct (Hhold a u H) as (v & orig & E & Epc). exists a, v. rewrite Epc. split; [reflexivity|exact E].
 Qed.
 
+(* a worker stays a worker in the layer too *)
+Lemma spin_role ssched ext a :
+  is_ext (bpc (snd (spin_run ssched ext) a)) = match ext a with Some _ => true | None => false end.
+Proof.
+  destruct (spin_reach ssched ext) as (sched & _ & Hpt & _). rewrite Hpt. apply role_reach.
+Qed.
+
+(* the case in which the model is exact: in the stuck configuration no pool worker is spinning
+   (whatever still spins is an OS thread, whose yield_k touches no scheduler state).  Then the
+   conclusion is that of no_lost_wakeup, word for word *)
+Corollary spin_waker_not_lost_os ssched ext w :
+  ext w = None ->
+  let c := spin_run ssched ext in
+  sstuck c ->
+  (forall a, ext a = None -> spin_at (fst c) (snd c a) = None) ->
+  forall u p, u < ntasks (fst c) -> wake (tasks (fst c) u) = Some p ->
+    tw_of (fst c) u <> wS (p + 1) /\ tw_of (fst c) u <> wA p.
+Proof.
+  intros Hw c Hst Hns u p Hu Hwk.
+  destruct (spin_waker_not_lost ssched ext w Hw Hst (Hns w Hw)) as (_ & H2 & H3). fold c in H2, H3.
+  split; [now apply H2|]. intros E. destruct (H3 u p Hu Hwk E) as (a & v & Hr & Hsp).
+  assert (R := spin_role ssched ext a). fold c in R.
+  destruct (ext a) eqn:Ea.
+  - destruct (bpc (snd c a)); cbn in Hr; try contradiction; discriminate R.
+  - rewrite (Hns a Ea) in Hsp. discriminate.
+Qed.
+
 (* ------------------------------------------------------------------ non-vacuity *)
 Definition sN (a : nat) : nat * soracle := (a, {| so := oP; sint := false |}).
 Definition sI (a : nat) : nat * soracle := (a, {| so := oP; sint := true |}).
@@ -350,4 +377,20 @@ Proof.
   - destruct s; vm_compute; reflexivity.
   - vm_compute; reflexivity.
   - destruct s, b, i; vm_compute; reflexivity.
+Qed.
+
+(* the run of the interrupt example, continued by one idle iteration (cleanup of the terminated
+   object), is stuck with nobody spinning: the hypotheses of spin_waker_not_lost_os are satisfiable
+   by a run in which a waker did spin *)
+Definition spin_sched_end : list (nat * soracle) := spin_sched_done ++ [(1, {| so := oC; sint := false |})].
+Lemma spin_end_stuck :
+  let c := spin_run spin_sched_end nv_ext in
+  sstuck c /\ (forall a, spin_at (fst c) (snd c a) = None) /\ st (tw_of (fst c) 0) = st_terminated.
+Proof.
+  split; [|split; [|vm_compute; reflexivity]].
+  - intros a [[i b h] s]. destruct a as [|[|a]].
+    + destruct s; vm_compute; reflexivity.
+    + destruct s, b, i; vm_compute; reflexivity.
+    + destruct s, b, i; vm_compute; reflexivity.
+  - intros a. destruct a as [|[|a]]; vm_compute; reflexivity.
 Qed.
